@@ -26,7 +26,6 @@ from vcore import Infra, pyres
 TESTDATA = "/repo/tests/nxpimage/data"
 FINDING_MISDETECT = "C14-later-start-misdetected"
 FINDING_UNTYPED = "C14-untyped-parse-mbi-lenient"
-FINDING_BYNAME = "C14-init-offset-by-name-refused"
 APP_PARSERS = ("SegmentMbi", "SegmentHab", "SegmentAhab", "SegmentSB21", "SegmentSB31")
 
 
@@ -869,10 +868,20 @@ def run_glue(T, F, row, wdir):
     # ---- init offset by segment NAME through the configuration (documented: "the segment name or the index of initial segment")
     named = next((kd["label"] for kd, off in segs if off and kd["init_segment"]), None)
     if named is not None:
-        ln = pyres(lambda: BootableImage.load_from_config(dict(cfg_b, init_offset=named), [wdir]).init_offset)
         want = next(off for kd, off in segs if kd["label"] == named)
-        if ln != ("ok", want):
-            fail("load_from_config does not take the init offset by segment name", ln, want, FINDING_BYNAME)
+        for form in (named, hex(want), str(want)):
+            ln = pyres(lambda form=form: BootableImage.load_from_config(dict(cfg_b, init_offset=form), [wdir]).init_offset)
+            if ln != ("ok", want):
+                fail("load_from_config does not take the init offset by segment name / as a numeric string", (form, ln), want)
+        topn = _yaml_dump(os.path.join(wdir, "bimg_named.yaml"), dict(cfg, init_offset=named))
+        outn = os.path.join(wdir, "named.bin")
+        r = runner.invoke(nxpimage.main, ["bootable-image", "merge", "-c", topn, "-o", outn])
+        if r.exit_code != 0 or not os.path.isfile(outn):
+            fail("nxpimage bootable-image merge refuses an init offset given by segment name", (r.exit_code, str(r.exception)[:160]))
+        else:
+            with open(outn, "rb") as fh:
+                if fh.read() != data[want:]:
+                    fail("the image merged with the init offset given by segment name is not the full image from that segment on", named, want)
     return {"case": case, "fails": fails, "cls": "glue/" + ("+".join(kinds_yaml) or "binary-only")}
 
 
@@ -1022,7 +1031,8 @@ def init_stream(ck, drv, T):
     from spsdk.image.bootable_image.segments import BootableImageSegment
     from spsdk.image.mem_type import MemoryType
     s = ck.stream("init_offset", "every (family, revision, memory type) row x init requests {-1, 0, 1, each static offset -1/+0/+1, every segment "
-                  "name of the row, one foreign name}: resulting init offset and excluded flags vs the model, and vs the statement 'closest "
+                  "name of the row, one foreign name} through the setter / constructor, and through load_from_config (integer, hex and decimal string, "
+                  "segment name; per distinct segment table) : resulting init offset and excluded flags vs the model, and vs the statement 'closest "
                   "segment offset at or above the request, segments below it excluded'; non-trivial = request > 0")
     s.exhaustive = True
     reqs = []
@@ -1066,6 +1076,45 @@ def init_stream(ck, drv, T):
             else:
                 want = f"ok:{exp}:" + "".join("1" if off is not None and off < exp else "0" for _, off in segs)
                 s.expect(real == want, inp, "init offset is not the closest segment offset at or above the request / wrong segments excluded", real, want)
+            reqs.append((inp, line, real))
+    # ---- the configuration path: init_offset as integer, numeric string or segment name through load_from_config
+    seen = {}
+    for row in T.rows:
+        if row["revision"] == "latest" and row["usable"]:
+            seen.setdefault(row["layout"], []).append(row)
+    cfg_rows = [r for lay in sorted(seen) for r in (seen[lay][:3] if ck.quick else seen[lay])]
+    dummy = os.path.join(os.environ["VERIF_SCRATCH"], "init_dummy_app.bin")   # any bytes: nothing is parsed when a configuration is loaded
+    with open(dummy, "wb") as fh:
+        fh.write(b"\x5a" * 8)
+    for row in cfg_rows:
+        segs = T.segs(row)
+        statics = [off for _, off in segs if off is not None]
+        labels = [kd["label"] for kd, _ in segs]
+        foreign = next(k["label"] for k in T.kinds if k["label"] not in labels)
+        forms = []
+        for o in sorted({0, 1} | set(statics) | {max(statics) + 1}):
+            forms += [(o, o), (hex(o), o), (str(o), o)]
+        forms += [(lb, "name:" + lb) for lb in labels + [foreign]] + [("-1", -1), (-1, -1)]
+        for form, meaning in forms:
+            inp = (row["family"], row["revision"], row["mem_type"], "config", form)
+            r = pyres(BootableImage.load_from_config, dict({kd["cfg_key"]: dummy for kd, _ in segs if not kd["boot_header"]},
+                                                           family=row["family"], revision=row["revision"], memory_type=row["mem_type"], init_offset=form))
+            if isinstance(meaning, str):
+                req = next((off for kd, off in segs if kd["label"] == meaning[5:]), None)
+                req = -1 if req is None else req
+                kidx = next(i for i, k in enumerate(T.kinds) if k["label"] == meaning[5:])
+                line = f"initk {row['layout']} {kidx}"
+            else:
+                req, line = meaning, f"init {row['layout']} {meaning}"
+            s.note(inp, nontrivial=req > 0, cls="config/" + ("name" if isinstance(meaning, str) else "str" if isinstance(form, str) else "int"))
+            real = (f"ok:{r[1].init_offset}:" + "".join("1" if sg.excluded else "0" for sg in r[1]._segments)) if r[0] == "ok" else r[0]
+            exp = None if req < 0 else 0 if req == 0 else min([o for o in statics if o >= req], default=None)
+            if exp is None:
+                s.expect(r[0] == "E:spsdk", inp, "load_from_config does not refuse an init offset that no segment can serve with an SPSDK error", real)
+            else:
+                want = f"ok:{exp}:" + "".join("1" if off is not None and off < exp else "0" for _, off in segs)
+                s.expect(real == want, inp, "load_from_config: init offset (integer / numeric string / segment name) is not the closest segment offset "
+                         "at or above the request / wrong segments excluded", real, want)
             reqs.append((inp, line, real))
     if drv is not None:
         for (inp, line, real), ans in zip(reqs, drv.batch([q[1] for q in reqs])):
